@@ -146,3 +146,54 @@ Example C13_witness :
       [KLeaf 1; KCond 2; KCond 3; KLeaf 5; KCond 2; KCond 3; KLeaf 4; KLeaf 5; KCond 2] /\
     trace body [false] = walk 40 g [false].
 Proof. vm_compute. eexists. repeat split; reflexivity. Qed.
+
+(* ---- the content-carrying lifting mirror (Model.LiftFull) ----
+   Model.Lift, about which the theorems above speak, lifts statement SKELETONS.
+   Model.LiftFull mirrors the same code on the real syntax tree (Model.Ast):
+   unique-variable renaming, IR statements and expressions with their metas,
+   declarations, parameters (try_lift_impl of control_flow_graph/lifting.rs with
+   intermediate_representation/lifting.rs), and is compared with the real
+   `into_cfg` on every run (stage "content-carrying lifting mirror vs
+   implementation" of this check).  Forgetting the statement content of the graph
+   it builds ([skel_block]) gives exactly the graph Model.Lift builds from the
+   skeleton of the same body ([skel]) - for ANY way [key] of naming a statement /
+   a condition by its meta.  So every theorem above (and all of C12) is a theorem
+   about the block structure of the content-carrying graph. *)
+Require Model.Ast Model.Ir Model.LiftFull Proofs.LiftFullProofs.
+
+Theorem C13_liftfull_skeleton : forall key kind params pfile ploc body r,
+  Model.LiftFull.try_lift_impl kind params pfile ploc body = Ok r ->
+  lift (Model.LiftFull.skel key body)
+  = Ok (map (Model.LiftFull.skel_block key) (Model.LiftFull.xc_blocks (Model.LiftFull.l_cfg r))).
+Proof. exact Proofs.LiftFullProofs.liftfull_skeleton. Qed.
+Print Assumptions C13_liftfull_skeleton.
+
+(* the simulation theorem transferred: the walk of the content-carrying graph
+   (seen through [skel_block]) contains the execution of the body (seen through
+   [skel]) under every decision list *)
+Theorem C13_liftfull_cfg_contains_source : forall key kind params pfile ploc body r ds,
+  Model.LiftFull.try_lift_impl kind params pfile ploc body = Ok r ->
+  exists n0, forall n, n0 <= n ->
+    trace (Model.LiftFull.skel key body) ds
+    `prefix_of` walk n (map (Model.LiftFull.skel_block key) (Model.LiftFull.xc_blocks (Model.LiftFull.l_cfg r))) ds.
+Proof.
+  exact (fun key kind params pfile ploc body r ds H =>
+           cfg_contains_source _ _ ds (Proofs.LiftFullProofs.liftfull_skeleton key kind params pfile ploc body r H)).
+Qed.
+Print Assumptions C13_liftfull_cfg_contains_source.
+
+(* non-vacuity: `function f(x) { while (x) { if (x) { return x; } x = 1; } return x; }`
+   lifts to six blocks holding five IR statements *)
+From Coq Require Import String.
+Example C13_liftfull_witness :
+  let m a b := Model.Ast.Meta a b (Some 0%N) in
+  let x := Model.Ast.Variable_ (m 1 2)%N "x"%string [] in
+  let body := Model.Ast.Block (m 0 50)%N
+    [Model.Ast.While (m 3 40)%N x (Model.Ast.Block (m 10 40)%N
+       [Model.Ast.IfThenElse (m 11 30)%N x (Model.Ast.Block (m 15 30)%N [Model.Ast.Return (m 16 20)%N x]) None;
+        Model.Ast.Substitution (m 31 39)%N "x"%string [] Model.Ast.AssignVar (Model.Ast.Number (m 35 36)%N 1)]);
+     Model.Ast.Return (m 41 49)%N x] in
+  exists r, Model.LiftFull.try_lift_impl Model.Ir.KFunction ["x"%string] (Some 0%N) (0%N, 0%N) body = Ok r /\
+    Datatypes.length (Model.LiftFull.xc_blocks (Model.LiftFull.l_cfg r)) = 6 /\
+    Datatypes.length (Model.LiftFull.graph_stmts (Model.LiftFull.xc_blocks (Model.LiftFull.l_cfg r))) = 5.
+Proof. vm_compute. eexists. repeat split; reflexivity. Qed.
